@@ -73,6 +73,7 @@ type LJob struct {
 }
 type LPod struct {
 	Name  string `json:"name"`
+	Uid   string `json:"uid"`
 	Idx   int    `json:"idx"`
 	Retry int    `json:"retry"`
 	Mine  bool   `json:"mine"`
@@ -119,7 +120,8 @@ type LLine struct {
 	Op      string   `json:"op"`
 	Key     string   `json:"key"`
 	Err     string   `json:"err"`
-	Dels    []string `json:"dels"`
+	Dels    []string `json:"dels"`  // graceful Pod deletes issued in this segment
+	FDels   []string `json:"fdels"` // forced Pod deletes issued in this segment
 	Force   bool     `json:"force"`
 	Run     int      `json:"run"`
 	Faulted bool     `json:"faulted"`
@@ -142,6 +144,7 @@ type JLOpts struct {
 	Forbid     bool
 	Foreign    bool // a foreign pod occupies the name of attempt 0 of index 0
 	PodLagFree bool // allow the Pod cache to lag behind the Job cache (cache-skew family)
+	Fresh      bool // random scheduler: a pass only begins when both caches are up to date
 }
 
 type JL struct {
@@ -322,7 +325,7 @@ func (j *JL) projJob(o runtime.Object) LJob {
 
 func (j *JL) projPod(o runtime.Object) LPod {
 	p := o.(*corev1.Pod)
-	x := LPod{Name: p.Name, Phase: string(p.Status.Phase), Del: tkp(p.DeletionTimestamp), Cr: tkp(&p.CreationTimestamp)}
+	x := LPod{Name: p.Name, Uid: string(p.UID), Phase: string(p.Status.Phase), Del: tkp(p.DeletionTimestamp), Cr: tkp(&p.CreationTimestamp)}
 	if x.Phase == "" {
 		x.Phase = "Pending"
 	}
@@ -397,10 +400,13 @@ func (j *JL) State() LState {
 }
 
 func (j *JL) emit(ev string, l Label, seg *sw.Seg) {
-	line := LLine{Ev: ev, L: l, Run: j.Run, Cfg: j.Cfg, Dels: []string{}, Faulted: j.faulted}
+	line := LLine{Ev: ev, L: l, Run: j.Run, Cfg: j.Cfg, Dels: []string{}, FDels: []string{}, Faulted: j.faulted}
 	if seg != nil {
 		for _, d := range seg.Dels {
 			line.Dels = append(line.Dels, strings.TrimPrefix(d, ns+"/"))
+		}
+		for _, d := range seg.FDels {
+			line.FDels = append(line.FDels, strings.TrimPrefix(d, ns+"/"))
 		}
 		line.Force = seg.Force
 		if seg.Done != nil {
@@ -619,7 +625,7 @@ func (j *JL) Enabled(rng *rand.Rand, maxTime int, faultP float64, applied bool) 
 			l.F = fs[rng.Intn(len(fs))]
 		}
 		add(l, 4)
-	} else if q.IsReady(k) {
+	} else if q.IsReady(k) && !(j.O.Fresh && (w.Inf.Jobs.Pending() > 0 || w.Inf.Pods.Pending() > 0)) {
 		add(Label{A: "SyncBegin"}, 4)
 	}
 	if w.Inf.Jobs.Pending() > 0 {
@@ -744,10 +750,10 @@ type JLSummary struct {
 	Faults      int            `json:"faults"`
 }
 
-func randJLOpts(rng *rand.Rand, skew bool) JLOpts {
+func randJLOpts(rng *rand.Rand, skew, fresh bool) JLOpts {
 	o := JLOpts{N: 1 + rng.Intn(3), MaxAtt: 1 + rng.Intn(3), Delay: []int{0, 0, 2}[rng.Intn(3)], Strategy: []string{"AllSuccessful", "AnySuccessful"}[rng.Intn(2)],
 		JobPT: []int{-1, -1, 0, 3}[rng.Intn(4)], CfgPT: []int{-1, 0, 4}[rng.Intn(3)], JobTTL: []int{-1, 0, 4}[rng.Intn(3)], CfgTTL: []int{-1, 6}[rng.Intn(2)],
-		CfgFD: []int{-1, 0, 3}[rng.Intn(3)], Forbid: rng.Intn(6) == 0, Foreign: rng.Intn(12) == 0, PodLagFree: skew}
+		CfgFD: []int{-1, 0, 3}[rng.Intn(3)], Forbid: rng.Intn(6) == 0, Foreign: rng.Intn(12) == 0, PodLagFree: skew, Fresh: fresh}
 	o.Par = o.N > 1 || rng.Intn(2) == 0
 	return o
 }
@@ -762,6 +768,7 @@ func JobLifeMain(args []string) (interface{}, error) {
 	sched := fs.String("sched", "", "schedules file")
 	applied := fs.Bool("applied", false, "applied-but-error faults")
 	skew := fs.Bool("skew", false, "let the Pod cache lag behind the Job cache")
+	fresh := fs.Bool("fresh", false, "passes only begin on up-to-date caches")
 	crash := fs.Bool("crash", true, "crash/restart")
 	faultP := fs.Float64("faultp", 0.06, "fault probability per API call")
 	if err := fs.Parse(args); err != nil {
@@ -791,7 +798,7 @@ func JobLifeMain(args []string) (interface{}, error) {
 	switch *mode {
 	case "random":
 		for r := 0; r < *runs; r++ {
-			j := NewJL(randJLOpts(rng, *skew), tr, r)
+			j := NewJL(randJLOpts(rng, *skew, *fresh), tr, r)
 			j.emit("Reset", Label{A: "Reset"}, nil)
 			maxTime := 4 + rng.Intn(12)
 			crashLeft := 0
